@@ -860,6 +860,33 @@ func init() {
 						return
 					}
 					fld := an.FieldOfAddr(st.Addr)
+					if hc, isCall := st.Val.(*ssa.Call); isCall && fld != nil && fld.Name() == "Jitter" {
+						// `s.Jitter = orDefault(s.Jitter, defaults.Jitter, fallback)`: the value made when both are missing
+						if cs := coalesceOf(an.Callee(hc)); cs != nil {
+							for _, fv := range cs.fresh {
+								fa, isFA := an.Strip(fv).(*ssa.Alloc)
+								if !isFA {
+									continue
+								}
+								n++
+								okZero := true
+								for _, init := range an.StoresTo(fa) {
+									var v ssa.Value = init.Val
+									if hp, isP := an.Strip(v).(*ssa.Parameter); isP {
+										if i := an.ParamIndex(hp); i >= 0 && i < len(hc.Call.Args) {
+											v = hc.Call.Args[i]
+										}
+									}
+									k, isK := an.Strip(v).(*ssa.Const)
+									if !isK || k.Value == nil || k.Float64() != 0 {
+										okZero = false
+									}
+								}
+								r.Check(okZero, core.FuncName(fn)+"#missing-jitter=0", an.Pos(c, in), "missing jitter defaults to 0", "a stage without a jitter setting gets a non-zero jitter: zero jitter is no longer the identity for such stages")
+							}
+						}
+						return
+					}
 					al, isAl := st.Val.(*ssa.Alloc)
 					if fld == nil || fld.Name() != "Jitter" || !isAl {
 						return
